@@ -134,11 +134,11 @@ CLAIMS = {
    technique="Lean 4 proof (byte-level big-step symbolic execution of the lock on the VM model, refinement to the C02 pure spec and the C16 window theorem; serialisation round trip) + acceptance oracle on the implementation + differential correspondence of builder bytes and runs",
    design="§5 C14"),
  'C15': dict(
-   text="Proved by byte-level symbolic execution of the HTLC locks (first layout, SHA-256 and SHAKE-256) on the VM model, including the IF_ELSE construct and its inline body frames, for every preimage item, digest, receiver / refund key, signature, cache, timestamp, clock, slack threshold, deadline in [0, 2^62), limits and (arbitrary) crypto parameters, no signature-extension plugin: "
+   text="Proved by byte-level symbolic execution of the HTLC locks (both layouts, SHA-256 and SHAKE-256) and the PTLC lock on the VM model, including the IF_ELSE construct and its inline body frames, for every preimage item, digest, receiver / refund key, signature, cache, timestamp, clock, slack threshold, deadline in [0, 2^62), limits and (arbitrary) crypto parameters, no signature-extension plugin: "
         "the run ends with exactly htlcSpec (htlcSha256Lock_run, htlcShake256Lock_run; the PTLC lock likewise ends with exactly armsSpec for its claim key - receiver, or receiver + T by ptlcLock_bytes - ptlcLock_run / armsSpec_accepts_iff), and htlcSpec is the verdict [ff] iff (the item hashes to the digest and the signature passes C02 under the receiver key - at any time) or (it does not, t >= deadline, t is not ahead of the clock by the slack or more, and the signature passes C02 under the refund key) (htlcSpec_accepts_iff, with deadline_readback + C16.1). "
         "A negative deadline reads back >= 2^(8 len - 1). Group level (any commutative group, L*G = 0): the PTLC witness scalar (x+t) mod L is the secret of the claim point X+T, of no claim point with another tweak point, and the receiver key alone does not open a tweaked lock. "
         "Tie and exactness: bytes of the six lock kinds and four witness kinds vs the model's builders; verdict grid (path x key x preimage x time at deadline-1 / deadline / deadline+1 / ahead of clock, preimage lengths 1..64, digest sizes, tweak scalars, sigfields, flags, all cross-pairings of witness kinds with lock kinds) judged on the implementation alone and executed on the model VM.",
-   note="per-lock theorems cover the two first-layout HTLC locks and the PTLC lock; the second HTLC layout (keys committed by hash) is decided by oracle + model correspondence. PTLC tweak scalars are clamped as make_ptlc_witness expects (an unreduced tweak scalar is outside the builder's contract). The theorems assume the resource side conditions they state (64-byte items fit, 4 stack slots).",
+   note="per-lock theorems cover all six lock kinds (htlc2Sha256Lock_run / htlc2Shake256Lock_run / htlc2Spec_accepts_iff for the second layout: additionally the supplied key must hash to the committed key hash). PTLC tweak scalars are clamped as make_ptlc_witness expects (an unreduced tweak scalar is outside the builder's contract). The theorems assume the resource side conditions they state (64-byte items fit, 4 stack slots).",
    technique="Lean 4 proof (byte-level big-step symbolic execution of the locks incl. IF_ELSE inline frames, refinement to the C02 pure spec and the C16 window theorem; codec read-back; abelian-group algebra) + verdict-grid oracle + differential correspondence of builder bytes and runs",
    design="§5 C15"),
  'C04': dict(
